@@ -191,12 +191,53 @@ type diffLine struct {
 }
 
 // compare checks a synced store against the truth.
-func compare(tr *truth, s *ledgerStore, w *wallet.SingleAddressWallet, cs consensus.State) (out []diffLine) {
-	fail := func(class, f string, a ...any) { out = append(out, diffLine{class, fmt.Sprintf(f, a...)}) }
-	// Balance() reads the same store (taken first: it locks the store itself)
-	bal, balErr := w.Balance()
+// snapshot is what a store holds, whichever store it is.
+type snapshot struct {
+	tip        types.ChainIndex
+	utxos      map[types.SiacoinOutputID]types.SiacoinElement
+	events     []wallet.Event
+	complaints []string
+}
+
+func (s *ledgerStore) snapshot() *snapshot {
 	s.mu.Lock()
 	defer s.mu.Unlock()
+	sn := &snapshot{tip: s.tip, utxos: map[types.SiacoinOutputID]types.SiacoinElement{}, events: append([]wallet.Event(nil), s.events...), complaints: append([]string(nil), s.complaints...)}
+	for id, e := range s.utxos {
+		sn.utxos[id] = e.Copy()
+	}
+	return sn
+}
+
+// snapshotOf reads any wallet.SingleAddressStore through its interface.
+func snapshotOf(st wallet.SingleAddressStore) (*snapshot, error) {
+	tip, utxos, err := st.UnspentSiacoinElements()
+	if err != nil {
+		return nil, err
+	}
+	sn := &snapshot{tip: tip, utxos: map[types.SiacoinOutputID]types.SiacoinElement{}}
+	for _, e := range utxos {
+		if _, dup := sn.utxos[e.ID]; dup {
+			sn.complaints = append(sn.complaints, "UnspentSiacoinElements lists an output twice")
+		}
+		sn.utxos[e.ID] = e.Copy()
+	}
+	n, err := st.WalletEventCount()
+	if err != nil {
+		return nil, err
+	}
+	if sn.events, err = st.WalletEvents(0, int(n)+10); err != nil {
+		return nil, err
+	}
+	if uint64(len(sn.events)) != n {
+		sn.complaints = append(sn.complaints, fmt.Sprintf("WalletEventCount %d but WalletEvents returned %d", n, len(sn.events)))
+	}
+	return sn, nil
+}
+
+func compare(tr *truth, s *snapshot, w *wallet.SingleAddressWallet, cs consensus.State) (out []diffLine) {
+	fail := func(class, f string, a ...any) { out = append(out, diffLine{class, fmt.Sprintf(f, a...)}) }
+	bal, balErr := w.Balance()
 	for _, c := range s.complaints {
 		fail("store-protocol", "%s", c)
 	}
